@@ -110,6 +110,10 @@ class Batch:
                "--step", str(nworkers), "--budget-s", "%.1f" % budget, "--samples", str(samples)]
         if self.spec.get("mode"):
             cmd += ["--mode", self.spec["mode"]]
+        # every fourth worker process starts cold: no warm-up history, its first plan is the first thing the library sees in
+        # that process (one-time initialisations then happen under the plan's threads and faults)
+        if w % 4 == 1 and start == w and self.spec.get("mode", "") in ("", "threads", "preempt") and self.prop != "C11":
+            cmd.append("--cold")
         return cmd
 
     def pin_fn(self, w):
